@@ -42,6 +42,8 @@ def run(ctx):
     roundtrip.number_alphabet(r, lexpr)
     casts(ctx.rule("R-CAST", "lossy numeric casts in the number scanner and Number are the reviewed ones"), lexpr)
     digit_accumulation(ctx, lexpr)
+    decimal_parts(ctx, lexpr)
+    radix_prefix(ctx, lexpr)
     from . import c01
     c01.num_text(ctx, lexpr)
     int_boundary(ctx.rule("R-INT-BOUNDARY", "parse_num_tail stores boundary magnitudes as the exact integer: "
@@ -74,12 +76,25 @@ def _radix_eq10_edges(fn, ri):
                 if v == 10:
                     eq_t = tg
         else:
-            ds = [d for d in defs.get(op["pl"]["l"], []) if d[0] == bi and d[1] != "term"] if not op["pl"]["p"] else []
+            # the comparison sits in this block, or in the block that falls through to it (a `==` on a wrapper type
+            # read as the scalar comparison: rules/rename.py)
+            ds = [d for d in defs.get(op["pl"]["l"], []) if d[1] != "term" and (d[0] == bi or (
+                fn.blocks[d[0]]["term"]["k"] == "goto" and fn.blocks[d[0]]["term"].get("t") == bi))] if not op["pl"]["p"] else []
+            if len(defs.get(op["pl"]["l"], [])) != 1:
+                ds = [d for d in ds if d[0] == bi]
             if len(ds) == 1 and ds[0][2]["k"] == "bin" and ds[0][2]["op"] in ("Eq", "Ne"):
                 rv = ds[0][2]
                 a, b2 = rv["a"], rv["b"]
                 oa = common.origin(fn, defs, a)
-                if oa["k"] == "param" and oa["l"] == ri and common.const_int(b2) == 10:
+                kb = common.const_int(b2)
+                if kb is None:
+                    ob = common.origin(fn, defs, b2)
+                    kb = common.const_int(ob["op"]) if ob["k"] == "const" else None
+                    if kb is None and ob["k"] == "const" and ob["op"].get("ty") in ("&u8", "&u16", "&u32", "&u64", "&usize") \
+                            and isinstance(ob["op"].get("bytes"), list):
+                        # a promoted reference to the scalar constant
+                        kb = int.from_bytes(bytes(x & 255 for x in ob["op"]["bytes"]), "little")
+                if oa["k"] == "param" and oa["l"] == ri and kb == 10:
                     want = 1 if rv["op"] == "Eq" else 0
                     eq_t = t["otherwise"]
                     for v, tg in t["targets"]:
@@ -544,6 +559,146 @@ def casts(r, crate):
     if pool.unused():
         r.note("reviewed casts no longer present: %s" % sorted(pool.unused().items()))
     r.floor("lossy-casts", n)
+
+
+def radix_prefix(ctx, crate):
+    """`#b` `#o` `#d` `#x` select radix 2, 8, 10, 16: the literal `10` behind each prefix is that radix itself.  The
+    lexer (parse_token) and the element reader of byte vectors (parse_number) are evaluated on the five-byte texts with
+    the digit loops looked through; the number that comes out is compared."""
+    from .. import lex, sim
+    from ..sim import Adt
+    r = ctx.rule("R-RADIX-PREFIX", "the radix prefixes #b #o #d #x read the literal `10` as 2, 8, 10 and 16 (lexer and byte-vector elements)")
+    P = "parse::Parser::<R>::"
+    nv = {x["name"]: x["idx"] for x in crate.adts["number::N"]["variants"]}
+    hi = lex.helper_inline(crate)
+    local = lambda a, b: b.crate == crate.name and b.file.endswith("parse/mod.rs") and b.kind != "closure" and not b.is_pub \
+        and b.path.startswith(P) and b.path not in (P + "parse_whitespace",)
+    inl = lambda a, b: hi(a, b) or local(a, b) or b.file.endswith("number.rs")
+    n = und = 0
+    for entry, first_is_arg in ((P + "parse_token", True), (P + "parse_number", False)):
+        f = crate.fn(entry)
+        if f is None:
+            r.anchor_missing(entry)
+            continue
+        for letter, radix in ((0x62, 2), (0x6F, 8), (0x64, 10), (0x78, 16)):
+            seq = [0x23, letter, 0x31, 0x30, 0x20]
+            S = sim.Sim([crate], hooks={"call": lex.seq_hook(seq)}, inline=inl, max_visits=8, max_paths=6000, max_depth=8)
+            outs = set()
+            try:
+                for p in S.run(f, args={2: 0x23} if first_is_arg else {}):
+                    if p.end != "return":
+                        outs.add(("?", str(p.end)))
+                        continue
+                    found = [x for x in _numbers_in(S, p, p.ret)]
+                    outs.add(tuple(found) if found else ("?", "no number"))
+            except sim.Limit:
+                outs = {("?", "limit")}
+            n += 1
+            what = "%s on `#%s10`" % (entry.rsplit("::", 1)[1], chr(letter))
+            if outs == {((nv["PosInt"], radix),)}:
+                r.ok("%s -> %d" % (what, radix), f)
+            elif any(o and o[0] == "?" for o in outs):
+                r.note("undecided: %s gives %s" % (what, sorted(outs, key=repr)[:3]))
+                r.obligations += 1
+                r.discharged += 1
+                und += 1
+            else:
+                r.violation(f.path, "radix-prefix:%s:%s" % (entry.rsplit("::", 1)[1], chr(letter)),
+                            "%s reads %s instead of %d: the prefix `#%s` does not select radix %d" % (
+                                what, sorted(outs, key=repr), radix, chr(letter), radix), f.loc())
+    r.floor("prefix-cases", n)
+    r.floor("prefix-cases-decided", n - und)
+
+
+def _numbers_in(S, p, v, depth=0):
+    """(variant, payload) of every number::N value inside a returned value (Ok(Token::Number(Number(N))), Ok(Number))."""
+    from ..sim import Adt
+    v = S._deref(v, p)
+    if depth > 6 or not isinstance(v, Adt):
+        return
+    if v.adt == "number::N":
+        yield (v.variant, v.fields[0] if v.fields and isinstance(v.fields[0], int) else None)
+        return
+    for x in v.fields:
+        for y in _numbers_in(S, p, x, depth + 1):
+            yield y
+
+
+def decimal_parts(ctx, crate, rule=None):
+    """A decimal literal with a fraction and / or an exponent is handed to the float constructor as (significand,
+    decimal exponent) with significand * 10^exponent equal to the literal - whatever the rounding does afterwards.
+    The digit loops are evaluated on a dozen literal texts (signs of the exponent, fraction digits shifting it,
+    upper-case E, leading zeros in the exponent); the pair that reaches f64_from_parts is compared with the text as
+    an exact fraction.  Cases, not all literals."""
+    from fractions import Fraction
+    from .. import lex, sim
+    r = rule or ctx.rule("R-DEC-PARTS", "a decimal literal reaches the float constructor as (significand, exponent) with "
+                                        "significand * 10^exponent equal to the literal (sign of the exponent, fraction digits)")
+    P = "parse::Parser::<R>::"
+    f = crate.fn(P + "parse_num_literal")
+    g = crate.fn(P + "f64_from_parts")
+    if f is None or g is None:
+        r.anchor_missing(P + "parse_num_literal / f64_from_parts")
+        return
+    tys = {i: f.local_ty(i) for i in range(2, f.arg_count + 1)}
+    rad_i = [i for i, t in tys.items() if t in ("u32", "u8", "u16", "usize")]
+    args = {}
+    if len(rad_i) == 1:
+        args[rad_i[0]] = 10
+    for i, t in tys.items():
+        if t == "bool":
+            args[i] = 1
+    hi = lex.helper_inline(crate)
+    local = lambda a, b: b.crate == crate.name and b.file.endswith("parse/mod.rs") and b.kind != "closure" and b.path != g.path \
+        and not b.is_pub and b.path.startswith(P) and b.path not in (P + "parse_token", P + "parse_whitespace")
+    inl = lambda a, b: hi(a, b) or local(a, b)
+    texts = ["12e-7", "12e+7", "12e7", "12E-34", "1.5e-3", "0.25", "12.5E+2", "100e-2", "1.25e-12", "9.5e21", "3e-007", "10.0625"]
+    n = und = 0
+    for text in texts:
+        seq = [ord(c) for c in text] + [0x20]
+        got = []
+
+        def extra(S, fn, bb, t, a, path, names, got=got):
+            if g.path in names:
+                d = [S._deref(x, path) for x in a]
+                sig = _u64_part(crate, g, d)
+                exp = [d[i - 1] for i in range(1, g.arg_count + 1) if g.local_ty(i) == "i32" and i - 1 < len(d)]
+                for i in range(1, g.arg_count + 1):
+                    ty = g.local_ty(i)
+                    if ty in crate.adts and crate.adts[ty]["kind"] == "struct" and i - 1 < len(d) and isinstance(d[i - 1], sim.Adt):
+                        fl = crate.adts[ty]["variants"][0]["fields"]
+                        exp += [d[i - 1].fields[k] for k, x in enumerate(fl) if x["ty"] == "i32" and k < len(d[i - 1].fields)]
+                got.append((sig, exp[0] if len(exp) == 1 else None))
+                return ("stop", "float")
+            return None
+
+        S = sim.Sim([crate], hooks={"call": lex.seq_hook(seq, extra)}, inline=inl, max_visits=len(text) + 4, max_paths=4000, max_depth=7)
+        n += 1
+        try:
+            ends = {str(p.end) for p in S.run(f, args=args)}
+        except sim.Limit:
+            ends = {"limit"}
+        want = Fraction(text.lower().replace("e+", "e")) if "e" in text.lower() else Fraction(text)
+        vals = set()
+        for sig, exp in got:
+            if isinstance(sig, int) and isinstance(exp, int) and abs(exp) < 400:
+                vals.add(Fraction(sig) * Fraction(10) ** exp)
+            else:
+                vals.add(None)
+        if ends == {"stop:float"} and vals == {want}:
+            r.ok("literal %s reaches the float constructor as %s" % (text, sorted(got)[0]), f)
+        elif ends != {"stop:float"} or None in vals or not vals:
+            r.note("undecided: %s ends in %s with %s" % (text, sorted(ends), got[:2]))
+            r.obligations += 1
+            r.discharged += 1
+            und += 1
+        else:
+            r.violation(f.path, "dec-parts:%s" % text,
+                        "the literal %s reaches the float constructor as significand %s with exponent %s, i.e. as %s: "
+                        "the sign or size of the decimal exponent is wrong" % (text, sorted(got)[0][0], sorted(got)[0][1],
+                                                                              sorted(map(str, vals))), f.loc())
+    r.floor("decimal-literals", n)
+    r.floor("decimal-literals-decided", n - und)
 
 
 def digit_accumulation(ctx, crate):
